@@ -95,7 +95,22 @@ func c03FilterRoutes(F string) ([]string, map[string]string) {
 		"{% extends \"uses\" %}",
 		"{% import \"usesm\" m %}",
 		"{% ssi \"uses\" parsed %}",
+		"{{ [x|" + F + ", y]|join:\",\" }}",
+		"{% for i in [x|" + F + "] %}{% endfor %}",
 	}, files
+}
+
+// places where today's grammar accepts no filter at all: whatever a tree makes of them, a banned
+// filter must not get through (only "rejected, and the banned code did not run" is required here)
+func c03OffGrammarRoutes(F string) []string {
+	return []string{
+		"{{ (x)|" + F + " }}",
+		"{% if (x)|" + F + " %}a{% endif %}",
+		"{{ (x|lower)|lower|" + F + " }}",
+		"{% with v=(x)|" + F + " %}{% endwith %}",
+		"{{ x.y|" + F + ".z }}",
+		"{{ \"a\" \"b\"|" + F + " }}",
+	}
 }
 
 // (a) filter ban: every route is rejected at compile time, the banned code never runs,
@@ -110,13 +125,25 @@ func HarnessC03FilterRoutes() {
 		F = []string{"verifprobe", "upper", "safe", "escape"}[verifChoice(4)]
 	}
 	routes, files := c03FilterRoutes(F)
-	r := verifChoice(len(routes))
+	off := c03OffGrammarRoutes(F)
+	r := verifChoice(len(routes) + len(off))
 	verifObserve("filter", F)
-	verifObserve("route", routes[r])
 	ml := &memLoader{files: files}
 	set := NewSet("verif", ml)
 	verifAssert(set.BanFilter(F) == nil, "ban must succeed before the first template")
 	c03Count = 0
+	if r >= len(routes) {
+		src := off[r-len(routes)]
+		verifObserve("route", src)
+		tpl, err := set.FromString(src)
+		verifAssert(err != nil, "template using a banned filter compiled (a place where the grammar takes no filter today)")
+		if err == nil {
+			tpl.Execute(Context{"x": "v"})
+		}
+		verifAssert(c03Count == 0, "banned filter code ran")
+		return
+	}
+	verifObserve("route", routes[r])
 	_, err := set.FromString(routes[r])
 	verifAssert(err != nil, "template using a banned filter compiled")
 	verifAssert(c03Count == 0, "banned filter code ran")
